@@ -58,9 +58,10 @@ func genSameCase(r *rand.Rand) *jSameCase {
 		if len(keys) > 0 {
 			q += " ORDER BY " + strings.Join(keys, ", ")
 			if r.Intn(3) == 0 {
-				q += fmt.Sprintf(" LIMIT %d", 1+r.Intn(6))
 				if r.Intn(2) == 0 {
-					q += fmt.Sprintf(" OFFSET %d", r.Intn(4))
+					q += fmt.Sprintf(" LIMIT %d, %d", r.Intn(4), 1+r.Intn(6)) // offset, count
+				} else {
+					q += fmt.Sprintf(" LIMIT %d", 1+r.Intn(6))
 				}
 			}
 		}
